@@ -595,7 +595,7 @@ fn read_state_file(path: &std::path::Path) -> Result<Vec<Request>, String> {
 }
 
 fn write_state_file(path: &std::path::Path, reqs: &[Request]) {
-    let mut f = std::fs::File::create(path).expect("state file");
+    let mut f = std::fs::File::create(path).unwrap_or_else(|e| panic!("{SETUP} cannot create the state file: {e}"));
     for (i, r) in reqs.iter().enumerate() {
         let wr = WorkerRequest::new(format!("SAVE-{i}"), r.clone());
         f.write_all(serde_json::to_string(&wr).unwrap().as_bytes()).unwrap();
@@ -626,6 +626,7 @@ struct Outcome {
     oracle: Vec<(String, String)>,
     tags: Vec<String>,
     nontrivial: bool,
+    inconclusive: bool,
 }
 impl Outcome {
     fn fail(&mut self, class: &str, detail: String) {
@@ -896,6 +897,12 @@ fn run_case(ops: &[String]) -> Outcome {
         _ => Err("no `set family C05|C06|C07` line".into()),
     };
     if let Err(e) = r {
+        // the machine ran out of descriptors / memory / processes under the main
+        // process's feet: an environment failure like a failed set-up, not a verdict
+        if ["os error 24", "os error 23", "os error 12", "os error 11", "Too many open files"].iter().any(|m| e.contains(m)) {
+            panic!("{SETUP} resource exhaustion during the case: {e}");
+        }
+        // anything else that goes wrong after the scenario started is a failure
         o.fail("rig-error", e);
     }
     o
@@ -997,22 +1004,49 @@ fn main() {
     std::panic::set_hook(Box::new(|_| {}));
     let args = parse_args();
     let mut dummy = spawn_dummy();
-    let code = real_main(&args);
-    let _ = dummy.kill();
-    let _ = dummy.wait();
+    let code = match std::panic::catch_unwind(std::panic::AssertUnwindSafe(|| real_main(&args))) {
+        Ok(c) => c,
+        Err(e) => {
+            // never leave the check without a result file
+            let res = json!({"area": "hubstate", "property": args.prop, "evaluations": 0,
+                "failures": [{"kind": "oracle", "class": "harness-inconclusive", "detail": format!("the harness runner panicked: {}", panic_text(&*e)), "case": -1, "ops": [], "impl_out": [], "model_out": []}]});
+            if !args.out.is_empty() {
+                let _ = std::fs::write(&args.out, serde_json::to_string_pretty(&res).unwrap());
+            }
+            1
+        }
+    };
+    if let Some(d) = dummy.as_mut() {
+        let _ = d.kill();
+        let _ = d.wait();
+    }
     std::process::exit(code);
 }
 
+/// One case. A panic of the harness thread — a set-up failure (temp dir,
+/// sockets, hub thread start: marked `SETUP:`) or a harness bug — says nothing
+/// about the code under test: the case is retried, then counted as
+/// inconclusive. (A panic of the main process under test happens in the hub
+/// thread and surfaces as "the main process stopped", a real failure.)
 fn judge(ops: &[String]) -> Outcome {
     quiet_logs();
-    match std::panic::catch_unwind(std::panic::AssertUnwindSafe(|| run_case(ops))) {
-        Ok(o) => o,
-        Err(_) => {
-            let mut o = Outcome::default();
-            o.fail("impl-panic", "the harness or the code under test panicked".into());
-            o
+    let mut why = String::new();
+    for attempt in 0..3 {
+        match std::panic::catch_unwind(std::panic::AssertUnwindSafe(|| run_case(ops))) {
+            Ok(o) => return o,
+            Err(e) => {
+                let t = panic_text(&*e);
+                why = if t.starts_with(SETUP) { "setup-failed".into() } else { format!("harness-panic:{}", t.chars().take(60).collect::<String>().replace(' ', "_")) };
+                std::thread::sleep(Duration::from_millis(50 << attempt));
+            }
         }
     }
+    let mut o = Outcome::default();
+    o.tags.push("inconclusive".into());
+    o.tags.push(format!("inconclusive:{why}"));
+    o.inconclusive = true;
+    eprintln!("inconclusive case ({why}): {ops:?}");
+    o
 }
 
 fn real_main(args: &Args) -> i32 {
@@ -1066,6 +1100,7 @@ fn real_main(args: &Args) -> i32 {
     let mut samples = vec![];
     let mut distinct = std::collections::HashSet::new();
     let mut clean = 0u64;
+    let mut inconclusive = 0u64;
     for (idx, (ops, o)) in cases.iter().zip(outcomes.iter()).enumerate() {
         for t in &o.tags {
             *dist.entry(t.clone()).or_insert(0) += 1;
@@ -1075,6 +1110,10 @@ fn real_main(args: &Args) -> i32 {
         }
         if samples.len() < 2 && o.nontrivial {
             samples.push(json!({"case": idx as i64 - ncorpus, "ops": ops, "impl_out": o.out}));
+        }
+        if o.inconclusive {
+            inconclusive += 1;
+            continue;
         }
         if o.oracle.is_empty() {
             clean += 1;
@@ -1088,6 +1127,10 @@ fn real_main(args: &Args) -> i32 {
                 *dist.entry(format!("more-failures:oracle:{c}")).or_insert(0) += 1;
             }
         }
+    }
+    // inconclusive cases are not failures by themselves; above 5 % the run says so
+    if inconclusive * 20 > cases.len() as u64 {
+        failures.push(json!({"kind": "oracle", "class": "harness-inconclusive", "detail": format!("{inconclusive} of {} cases were inconclusive (set-up failures): the machine is too loaded for this run to mean anything", cases.len()), "case": -1, "ops": [], "impl_out": [], "model_out": []}));
     }
     let res = json!({
         "area": "hubstate", "property": args.prop, "tier": args.tier, "seed": args.seed,
